@@ -332,7 +332,7 @@ static inline _Bool spec_face_used(const TK *m, int f) {     /* some live cell l
  * else changes. */
 static inline void reorder_contract_effect(TK *m, int e) {
 #ifndef NATIVE_REPLAY
-  if (!(m->e_bottom_up_ && e >= 0 && (unsigned long)(2 * e + 1) < m->incident_hfs_per_he_.size)) return;
+  if (!(e >= 0 && (unsigned long)(2 * e + 1) < m->incident_hfs_per_he_.size)) return;
   for (int s = 0; s < 2; s++) {
     int he = 2 * e + s;
     int old[LINC];
